@@ -125,8 +125,11 @@ def id_typestate(prog, rep, fi, loop):
 def visit_all(prog, rep, fi, loop):
     rep.rule("VISIT-ALL", "the bucket loop iterates over all keys of pw_db.buckets() with no break / continue / conditional skip; events are fetched with a negative limit and no window; the fetched list is the one passed on")
     it = norm(loop.iter)
-    d = single_def(fi, it) if isinstance(loop.iter, ast.Name) else loop.iter
-    ok = d is not None and norm(d) in ("pw_db.buckets()",) or it in ("pw_db.buckets()", "pw_db.buckets().keys()")
+    base = loop.iter
+    if isinstance(base, ast.Call) and isinstance(base.func, ast.Attribute) and base.func.attr in ("items", "keys") and not base.args:
+        base = base.func.value
+    d = single_def(fi, norm(base)) if isinstance(base, ast.Name) else base
+    ok = d is not None and norm(d) == "pw_db.buckets()"
     rep.check(bool(ok), "VISIT-ALL", fi.short, "iterates over every legacy bucket", f"for ... in {it}", f"the loop ranges over `{it}` (:= {norm(d) if d is not None else '?'}), not over every bucket of the legacy store", fi.loc(loop))
     skips = [n for n in ast.walk(loop) if isinstance(n, (ast.Break, ast.Continue, ast.Return))]
     conds = [n for n in loop.body if isinstance(n, (ast.If, ast.Try, ast.While))]
@@ -140,7 +143,8 @@ def visit_all(prog, rep, fi, loop):
     a = {names[i]: x for i, x in enumerate(gcall.args) if i < 4}
     a.update({k.arg: k.value for k in gcall.keywords if k.arg})
     lim = const_value(a.get("limit"), fi, prog) if a.get("limit") is not None else None
-    okl = lim is not None and lim < 0 and "starttime" not in a and "endtime" not in a and norm(a.get("bucket_id")) == norm(loop.target)
+    idvar = norm(loop.target.elts[0]) if isinstance(loop.target, ast.Tuple) else norm(loop.target)
+    okl = lim is not None and lim < 0 and "starttime" not in a and "endtime" not in a and norm(a.get("bucket_id")) == idvar
     rep.check(okl, "VISIT-ALL", fi.short, "all events fetched", f"{norm(gcall)}", f"events are fetched as `{norm(gcall)}`: a non-negative limit or a window leaves legacy events behind", fi.loc(gcall), expected="get_events(bucket_id, <negative limit>)", found=norm(gcall))
     asg = parent(gcall)
     sinks = [c for c in ast.walk(loop) if isinstance(c, ast.Call) and norm(c.func) == "datastore.insert_many"]
@@ -151,8 +155,8 @@ def visit_all(prog, rep, fi, loop):
             dd = single_def(fi, passed.id)
             if isinstance(dd, ast.ListComp) and len(dd.generators) == 1 and norm(dd.generators[0].iter) == v and not dd.generators[0].ifs:
                 passed = ast.Name(id=v)  # one rebuilt event per fetched event
-        okp = passed is not None and norm(passed) == v and norm(sinks[0].args[0]) == norm(loop.target) and not [x for x in local_defs(fi, v) if x is not asg and isinstance(x, ast.Assign)]
-        rep.check(okp, "VISIT-ALL", fi.short, "fetched list passed on", f"insert_many({norm(loop.target)}, {v})", f"what is inserted (`{norm(sinks[0])}`) is not the list that was fetched for this bucket", fi.loc(sinks[0]))
+        okp = passed is not None and norm(passed) == v and norm(sinks[0].args[0]) == idvar and not [x for x in local_defs(fi, v) if x is not asg and isinstance(x, ast.Assign)]
+        rep.check(okp, "VISIT-ALL", fi.short, "fetched list passed on", f"insert_many({idvar}, {v})", f"what is inserted (`{norm(sinks[0])}`) is not the list that was fetched for this bucket", fi.loc(sinks[0]))
 
 
 def legacy_read_only(prog, rep, fi):
@@ -298,7 +302,14 @@ def trigger(prog, rep):
         okc = nn not in r
     rep.check(bool(okc), "TRIGGER", cm.short, "migrates when a legacy file exists", "peewee_v2_to_sqlite_v1(datastore) under len(files) > 0", "the migration is not started exactly when a matching legacy file was found", cm.loc())
     sid = prog.cls("SqliteStorage").attrs.get("sid")
-    rep.check(sid is not None and f"datastore.sid == {norm(sid)}" in norm(cm.node), "TRIGGER", cm.short, "store kind test", f"sid == {norm(sid) if sid is not None else '?'}", "the store-kind test no longer matches SqliteStorage.sid", cm.loc())
+    oks = False
+    if sid is not None and mcalls:
+        from ..cfg import equality
+
+        gg = cfg_of(cm)
+        r = gg.reach_filtered(gg.entry, lambda u, v, lab: equality(lab, f"{cm.params[0]}.sid", norm(sid)) is not True)
+        oks = gg.node_of(mcalls[0]) not in r
+    rep.check(oks, "TRIGGER", cm.short, "store kind test", f"sid == {norm(sid) if sid is not None else '?'}", "the migration is not restricted to (or never runs for) the store whose sid is SqliteStorage.sid", cm.loc())
     mg = prog.func("peewee_v2_to_sqlite_v1")
     opens = [x for x in prog.all_calls(mg) if norm(x.func) == "PeeweeStorage"]
     oko = len(opens) == 1 and ((len(opens[0].args) == 1 and norm(opens[0].args[0]) == "datastore.testing" and not opens[0].keywords) or (not opens[0].args and [norm(k.value) for k in opens[0].keywords if k.arg == "testing"] == ["datastore.testing"] and len(opens[0].keywords) == 1))
@@ -331,7 +342,7 @@ def check(prog, rep):
     for n in loop.body:
         if isinstance(n, ast.Assign) and isinstance(n.value, ast.Subscript) and norm(n.value.slice) == norm(loop.target):
             bvar = norm(n.targets[0])
-    if bvar is None and isinstance(loop.target, ast.Tuple):
+    if bvar is None and isinstance(loop.target, ast.Tuple) and norm(loop.iter).endswith(".items()"):
         bvar = norm(loop.target.elts[1])
     if bvar is None:
         rep.undecided("COVERAGE", fi.short, "bucket metadata variable", "cannot find `bucket = buckets[bucket_id]`", fi.loc(loop))
